@@ -410,6 +410,10 @@ func (ex *Exec) modelFor(st *State, extra *Term) (string, []ReplayVal) {
 		as = append(as, extra)
 	}
 	res, model := ex.sol.Check(ex.ctx, as, true)
+	if res == "sat" && len(ex.ctx.Axioms) > 0 {
+		// UF inverse axioms are only brought in to confirm a satisfiable answer (unsat without them stays unsat with them)
+		res, model = ex.sol.Check(ex.ctx, append(as, ex.ctx.Axioms...), true)
+	}
 	if res != "sat" {
 		return res, nil
 	}
@@ -1649,6 +1653,23 @@ func (ex *Exec) stringIndex(st *State, s StringV, idx *Term) Value {
 	ex.boundsCheck(st, idx, len(s.B), "string")
 	if idx.IsConst() {
 		return s.B[idx.Val]
+	}
+	if isConstTree(idx) {
+		allConst := true
+		for _, b := range s.B {
+			if !b.IsConst() {
+				allConst = false
+				break
+			}
+		}
+		if allConst {
+			return c.mapLeaves(idx, func(k *Term) *Term {
+				if k.Val < uint64(len(s.B)) {
+					return s.B[k.Val]
+				}
+				return c.BVConst(8, 0)
+			})
+		}
 	}
 	_, hi := c.URange(idx)
 	n := len(s.B)
